@@ -196,6 +196,13 @@ def handle (s : St) (fs : List String) : St × String :=
       | some ls => (s, "/".intercalate (ls.map (showNats ",")))
       | none => (s, "cyclic")
     | none => (s, "bad-op")
+  | ["aprune", g] =>
+    -- the loaded-archive pruning loop of dr.run on the graph in DICT order, with the seeds as the broker's values
+    match parseGraph g with
+    | some g => match archivePrune s.seed g with
+      | some g' => (s, "keys=" ++ showNats "," g'.keys)
+      | none => (s, "keyerror")
+    | none => (s, "bad-op")
   | ["subgraphs", g, deps, dependents, prio] =>
     -- G in dict order; deps / dependents as `c:d,d;c:d`; prio as `c:p;c:p`
     match nats ',' g, parseGraph deps, parseGraph dependents, parseGraph prio with
